@@ -16,7 +16,7 @@ from .oracles import fd_census
 from .world import DEFAULT_KNOBS, Knobs, Violation, World, make_config, make_pool_specs
 
 MIB = 1024 * 1024
-STREAM_PATHS = ['add_streamed', 'add_streamed_to_pack', 'add_streamed_to_pack_z', 'pack_all_loose', 'pack_all_loose_z', 'repack', 'validate', 'chunked_read', 'chunked_read_z', 'import_streamed']
+STREAM_PATHS = ['add_streamed', 'add_streamed_to_pack', 'add_streamed_to_pack_z', 'pack_all_loose', 'pack_all_loose_z', 'repack', 'validate', 'chunked_read', 'chunked_read_z', 'import_streamed', 'add_streamed_dup', 'loosen_z', 'seek_forward_z', 'add_streamed_to_pack_nh', 'pack_all_loose_auto']
 
 
 class PatternStream:
@@ -249,7 +249,8 @@ def run_chunked(lib, world, case, probes):  # pylint: disable=too-many-locals,to
         cont.init_container(**case['config'])
         other = None
         try:
-            compressible = path.endswith('_z') or path in ('repack', 'validate')
+            # (newline-free contents for the duplicate add: the library re-hashes the existing loose file)
+            compressible = path.endswith('_z') or path in ('repack', 'validate', 'add_streamed_dup', 'pack_all_loose_auto')
             if compressible and case['seed'] % 3:
                 compressible = 'semi'
             stream = PatternStream(size, case['seed'] + idx, compressible=compressible)
@@ -282,6 +283,28 @@ def run_chunked(lib, world, case, probes):  # pylint: disable=too-many-locals,to
 
             if path == 'add_streamed':
                 func = lambda: cont.add_streamed_object(stream)  # noqa: E731
+            elif path == 'add_streamed_dup':
+                # the same content again while the first copy is still loose: the existing file is verified, not trusted
+                prepare_loose()
+                func = lambda: cont.add_streamed_object(stream)  # noqa: E731
+            elif path == 'seek_forward_z':
+                prepare_packed(True)
+
+                def func():
+                    # skipping forward in a compressed object decompresses, in chunks, what lies in between
+                    with cont.get_object_stream(key) as handle:
+                        handle.read(3)
+                        if handle.seek(size - 10) != size - 10 or len(handle.read()) != 10:
+                            raise Violation('wrong-size', 'seek forward to 10 bytes before the end, then read()')
+
+            elif path == 'add_streamed_to_pack_nh':
+                func = lambda: cont.add_streamed_object_to_pack(stream, no_holes=True, no_holes_read_twice=True)  # noqa: E731
+            elif path == 'pack_all_loose_auto':
+                prepare_loose()
+                func = lambda: cont.pack_all_loose(compress=CompressMode.AUTO)  # noqa: E731
+            elif path == 'loosen_z':
+                prepare_packed(True)
+                func = lambda: cont.loosen_object(key)  # noqa: E731
             elif path in ('add_streamed_to_pack', 'add_streamed_to_pack_z'):
                 func = lambda: cont.add_streamed_object_to_pack(stream, compress=path.endswith('_z'))  # noqa: E731
             elif path in ('pack_all_loose', 'pack_all_loose_z'):
